@@ -1086,8 +1086,10 @@ class Circuit(Function):
                 self._gates[input_label] = gate.Gate(input_label, new_type)
                 self._inputs.remove(input_label)
 
-        _replace_inputs(inputs_to_true, gate.ALWAYS_TRUE)
-        _replace_inputs(inputs_to_false, gate.ALWAYS_FALSE)
+        # copies: the arguments may be the circuit's own (live) list of inputs,
+        # which is shortened while the inputs are replaced
+        _replace_inputs(list(inputs_to_true), gate.ALWAYS_TRUE)
+        _replace_inputs(list(inputs_to_false), gate.ALWAYS_FALSE)
 
         return self
 
